@@ -4,6 +4,7 @@
    deadline struck" is the universal quantifier over [deadline]. *)
 From Coq Require Import List ZArith Bool.
 From AV Require Import Engine.Core Engine.Sem Engine.Eval Engine.Validate Engine.Naive Engine.Interface Engine.Timeout Engine.InterfaceTimeout Engine.TimeoutProofs Engine.MainTimeout.
+From AV Require Import Engine.InterfaceAgg Engine.Strat Engine.StratFixed Engine.EvalSpecAgg Engine.SemiNaiveAgg Engine.TimeoutProofsAgg.
 Import ListNotations.
 
 (* true => the full fixed point; in every case: inputs kept in place, every tuple present is derivable (the rows are
@@ -41,8 +42,22 @@ Theorem c14_never_firing_clock_is_run : forall I swap fuel pl st,
   run_timeout I swap (fun _ => false) fuel pl st = option_map (fun st' => (true, st')) (run_plan I swap fuel pl st).
 Proof. exact run_timeout_never. Qed.
 
-(* PARTIAL: programs with aggregation / negation and lattice relations ("every lattice value is below the final
-   one") are exercised by the tie (gen/props/c14.py includes stratified programs) but are not covered by these
-   theorems; the real clock (web_time::Instant) is replaced by the oracle. *)
+(* with aggregation / negation (duplicate-free input, permutation-invariant aggregators), for every clock: inputs in
+   place, rows duplicate free; `true` means the stratified model; an interrupted state holds only facts of the
+   stratified model; resuming with run() reaches exactly the stratified model of the original input *)
+Theorem c14_with_aggregates : forall (I : interp) swap (deadline : nat -> bool) arities P pl fuel F0 b st,
+  arities_functional arities -> wf_facts arities F0 = true -> NoDup F0 -> agg_perm_invariant I ->
+  validate arities P pl = true ->
+  run_timeout I swap deadline fuel pl (init_state F0) = Some (b, st) ->
+  (exists added, rows st = F0 ++ added) /\ NoDup (rows st) /\ wf_facts arities (rows st) = true
+  /\ (b = true -> strat_model_fixed I (plan_strata P pl) F0 (rows st))
+  /\ (forall M, strat_model_fixed I (plan_strata P pl) F0 M -> incl (rows st) M)
+  /\ (forall fuel' st' M, run_plan I swap fuel' pl st = Some st' ->
+        strat_model_fixed I (plan_strata P pl) F0 M -> forall f, In f (rows st') <-> In f M).
+Proof. intros I swap. exact (run_timeout_strat I swap (eval_variant_spec_agg I swap)). Qed.
 
-Print Assumptions c14_stops_sound. Print Assumptions c14_resume_run. Print Assumptions c14_resume_run_timeout. Print Assumptions c14_never_firing_clock_is_run.
+(* PARTIAL: lattice relations ("every lattice value is below the final one": C03's c03_sound_at_every_iteration gives
+   soundness of every intermediate state of the lattice engine, not yet phrased for run_timeout); the real clock
+   (web_time::Instant) is replaced by the oracle. *)
+
+Print Assumptions c14_stops_sound. Print Assumptions c14_resume_run. Print Assumptions c14_resume_run_timeout. Print Assumptions c14_never_firing_clock_is_run. Print Assumptions c14_with_aggregates.
